@@ -8,6 +8,7 @@ CONSTANTS
   VftTypes = {1, 2, 3}
   FnKinds = {}
   FnOwners = {}
+  Twins = {"none"}
   TwoModules = TRUE
   Ptrs = {8}
 INVARIANTS Inv_Passes Replay
